@@ -4,7 +4,7 @@ from ref import pools, musig, schnorr
 
 ID = "C12"
 LEVEL = "exploration"
-CONFIGS = {"quick": ["san", "mx_i64"], "thorough": ["san", "san_nv", "mx_i64", "mx_i128s"]}
+CONFIGS = {"quick": ["san", "san_nv", "mx_i64"], "thorough": ["san", "san_nv", "mx_i64", "mx_i128s"]}
 EXTRA_BUILDS = ["sg13", "sg199"]
 RULE = ("complete signing sessions with 1..16 signers over key multisets (distinct, first key repeated, all equal, sorted or not), 0..6 plain / x-only "
         "tweaks (incl. tweaks >= n and the tweak that cancels the aggregate key), every subset of optional nonce-generation arguments, the counter entry "
@@ -283,6 +283,17 @@ def finish(ctx, config, rng, K, kac, ds, pk33, objs, nonces, msg, it, cls_extra=
         if ex is not None:
             ctx.ev("musig_extract_adaptor", "parity%d" % S.parity, True, want_ad, want_sig)
             ctx.check(ex.ret == 1 and ex.b(1) == b32(t_ad), "musig_extract_adaptor:not_inverse_of_adapt", "want %x got %r" % (t_ad, ex), config)
+        # adaptors derived from the pre-signature itself, so that the ADAPTED s is a boundary scalar (0, 1, n-1): adapt / extract stay inverse
+        s_pre = I(want_sig[32:])
+        for target in (0, 1, n - 1):
+            tt2 = (target - s_pre) % n; t2 = tt2 if not S.parity else (n - tt2) % n
+            if not 0 < t2 < n: continue
+            a3 = ctx.call("musig_adapt", ag.b(1), b32(t2), S.parity, config=config)
+            if a3 is None: continue
+            ctx.ev("musig_adapt", "adapted_s_boundary", True, want_sig, b32(t2))
+            if not ctx.check(a3.ret == 1 and a3.b(1) == want_sig[:32] + b32(target), "musig_adapt:adapted_s_boundary:bytes", "target %x got %r" % (target, a3), config): continue
+            e3 = ctx.call("musig_extract_adaptor", a3.b(1), ag.b(1), S.parity, config=config)
+            if e3 is not None: ctx.check(e3.ret == 1 and e3.b(1) == b32(t2), "musig_extract_adaptor:adapted_s_boundary:not_inverse_of_adapt", "adapted s=%x want %x got %r" % (target, t2, e3), config)
         # out-of-range inputs
         for cls, pre, tsec in (("presig_s_ge_n", want_sig[:32] + b32(n), b32(t_ad)), ("adaptor_ge_n", ag.b(1), b32(n + 1))):
             a2 = ctx.call("musig_adapt", pre, tsec, S.parity, config=config)
@@ -317,7 +328,7 @@ def session_with_model_signer(ctx, config, rng, ds, msg, extra, cancel):
 
 def wl_parsers(ctx, config):
     rng = ctx.rng
-    for it in range(ctx.n(400, 10000)):
+    for it in ctx.iters(400, 10000):
         A = mulG(rng.randrange(1, n)); B = mulG(rng.randrange(1, n))
         a = ser33(A); b = ser33(B)
         kind = it % 8
@@ -348,7 +359,7 @@ def wl_parsers(ctx, config):
 def wl_counters(ctx, config):
     """counter entry point over the full 64-bit range: distinct counters give distinct nonces (incl. pairs differing by 2^32)"""
     rng = ctx.rng
-    for it in range(ctx.n(64, 1500)):
+    for it in ctx.iters(64, 1500):
         d = rng.randrange(1, n); kp = ctx.call("keypair_create", b32(d), config=config)
         c1 = rng.choice(COUNTERS) if it % 2 else rng.getrandbits(64)
         c2 = (c1 + rng.choice((2**32, 2**33, 2**48, 2**63, 1))) % 2**64
@@ -368,7 +379,7 @@ def run(ctx):
     from vlib import smallgroup
     smallgroup.run(ctx, "misc", {"musig_partial_sig_reenc": "accepted"})
     for config in ctx.cfgs():
-        for it in range(ctx.n(400, 10000)):
+        for it in ctx.iters(400, 10000):
             session(ctx, config, ctx.rng, it)
         wl_parsers(ctx, config)
         wl_counters(ctx, config)
